@@ -796,6 +796,15 @@ Section WithCfg.
     w <- dedup_loop (Z.to_nat l) k d l 1 1 sc ;;
     truncate v w.
 
+  (* the predicate of retain / drain_filter called on the element behind p: the script answers
+     (used by the world of EquivRetain.v; retain_loop below inlines the same sequence) *)
+  Definition pred_call (p : eptr) (sc : list answer) : M (bool * list answer) :=
+    a <- slot_read p ;;
+    expose a ;;;
+    emit (EvCall "p" [a]) ;;;
+    let '(x, sc') := pop_script sc A_T in
+    if x =? A_P then panic else ret (negb (x =? A_F), sc').
+
   Fixpoint retain_loop (fuel : nat) (d : eptr) (l read write : Z) (sc : list answer) : M Z :=
     match fuel with
     | O => ret write
@@ -1129,6 +1138,15 @@ Section WithCfg.
     | PDangling, PDangling => ret false
     | PNull, PNull => ret false
     | PNull, PDangling => ret true
+    | PDangling, PNull => ret false
+    | _, _ => ub WildCursor
+    end.
+  Definition ptr_same (p q : eptr) : M bool :=   (* p == q *)
+    match p, q with
+    | PElt b _ i, PElt b' _ j => if Nat.eqb b b' then ret (i =? j) else ub WildCursor
+    | PDangling, PDangling => ret true
+    | PNull, PNull => ret true
+    | PNull, PDangling => ret false
     | PDangling, PNull => ret false
     | _, _ => ub WildCursor
     end.
